@@ -189,6 +189,12 @@ DIRECT_MASTERS = [
     [s_("s", [s_("t", [d_("a", "none")])]), s_("s", [s_("t", [d_("b", "none")], dis=True)])],
     [s_("s", [s_("t", [d_("a", "none")])]), s_("s", [d_("t", "none", dis=True)])],
     [s_("s", [d_("m", "int", mult=True)]), s_("s", [d_("m", "int", dis=True)])],
+    # .multiple lists joined over the blocks of one scope: a leading None placeholder of the earlier block is dropped
+    [s_("s", [d_("m", "int", mult=True, dflt="None")]), s_("s", [d_("m", "int", mult=True, dflt="2"), d_("m", "int", mult=True, dflt="3")])],
+    [s_("s", [d_("m", "int", mult=True, dflt="None"), d_("m", "int", mult=True, dflt="None")]), s_("s", [d_("m", "int", mult=True, dflt="None")])],
+    [s_("s", [d_("m", "int", mult=True, dflt="1")]), s_("s", [d_("m", "int", mult=True, dflt="None")]), s_("s", [d_("m", "int", mult=True, dflt="2")])],
+    [s_("s", [s_("t", [d_("a", "int")], mult=True, dis=True)]), s_("s", [s_("t", [d_("a", "int", dflt="5")], mult=True)])],
+    [s_("s", [d_("m", "int", mult=True, opt=True, dflt="None")]), s_("s", [d_("m", "int", mult=True, opt=True, dflt="4")])],
 ]
 
 
